@@ -20,7 +20,9 @@ class Run:
         self.P = load_plugin(pid)
         self.log = []
         self.t0 = time.time()
-        self.wd = os.path.join(core.BUILD, pid)
+        # runs against a scratch worktree (VERIF_REPO) keep their files apart from runs against /repo
+        self.alt = os.path.realpath(core.REPO) != "/repo"
+        self.wd = os.path.join(core.BUILD, pid + ("_alt_%s" % os.environ.get("VERIF_ALT_TAG", str(os.getpid())) if self.alt else ""))
         os.makedirs(self.wd, exist_ok=True)
         self.checker_cmds = []
         self.binp = None
@@ -59,7 +61,7 @@ class Run:
 
     # ---------------------------------------------------------------- implementation side
     def build(self):
-        self.binp, self.harness_err = core.build_harness(self.pid, self.log)
+        self.binp, self.harness_err = core.build_harness(self.pid, self.log, self.wd)
 
     def execute(self, cases):
         """Run real code + model/spec evaluation. Returns list of dict(case, obs, row) or None."""
@@ -225,8 +227,9 @@ def evidence(run, results, known, unknown, disagreements, verdict, extra=None):
         "wall_s": round(time.time() - run.t0, 2),
         "violations": len(unknown),
     }
-    os.makedirs(os.path.join(core.VERIF, "evidence"), exist_ok=True)
-    json.dump(doc, open(os.path.join(core.VERIF, "evidence", run.pid + ".json"), "w"), indent=1, default=str)
+    evdir = os.path.join(core.BUILD, "alt_evidence") if run.alt else os.path.join(core.VERIF, "evidence")
+    os.makedirs(evdir, exist_ok=True)
+    json.dump(doc, open(os.path.join(evdir, run.pid + ".json"), "w"), indent=1, default=str)
 
 
 def gen_cases(P, seed, tier, scale=1):
